@@ -185,6 +185,8 @@ pub fn record_c13_bfs(a: &Args, out: &mut TraceOut) -> Value {
     let max_nodes = if thorough { 400_000 } else { 6_000 };
     let mut total_nodes = 0usize;
     let mut total_edges = 0usize;
+    let mut rejoins = 0usize;
+    let mut rejoin_budget = if thorough { 120_000usize } else { 20_000 };
     let configs: Vec<(u16, u16, PageFlipStyle)> =
         vec![(3, 4, PageFlipStyle::Manual), (0xFFFF, 0, PageFlipStyle::Automatic), (0x0012, 0x8012, PageFlipStyle::Manual)];
     for (own, other, flip) in configs {
@@ -263,6 +265,31 @@ pub fn record_c13_bfs(a: &Args, out: &mut TraceOut) -> Value {
                         out.emit(ev);
                         total_edges += 1;
                     }
+                    // edges that rejoin an implementation state found earlier along another path: the specification's state after
+                    // this path need not be the one after that path (its hidden counter and size are inferred, not observed), so
+                    // every alphabet message is probed behind each such edge as well
+                    if rejoin_budget > 0 {
+                        for (k, m) in alphabet.iter().enumerate() {
+                            if nodes[n].children.iter().any(|(ck, _)| *ck == k) {
+                                continue;
+                            }
+                            let mut c = nodes[n].sign.clone();
+                            let (_, fine) = apply(&mut c, m);
+                            if !fine || c == nodes[n].sign || c.pages().len() > max_pages || rejoin_budget == 0 {
+                                continue;
+                            }
+                            rejoin_budget -= 1;
+                            let (ev, _) = probe_event("down", &nodes[n].sign, m);
+                            out.emit(ev);
+                            for m2 in alphabet.iter() {
+                                let (ev, _) = probe_event("probe", &c, m2);
+                                out.emit(ev);
+                                total_edges += 1;
+                            }
+                            out.emit(json!({"e": "up"}));
+                            rejoins += 1;
+                        }
+                    }
                 }
                 if descend && ci < nodes[n].children.len() {
                     let (k, child) = nodes[n].children[ci];
@@ -281,7 +308,7 @@ pub fn record_c13_bfs(a: &Args, out: &mut TraceOut) -> Value {
             }
         }
     }
-    json!({"impl_states": total_nodes, "impl_transitions": total_edges})
+    json!({"impl_states": total_nodes, "impl_transitions": total_edges, "rejoining_edges_probed": rejoins})
 }
 
 // ------------------------------------------------------------------ random walks over the wide alphabet
